@@ -282,6 +282,20 @@ def run(ctx):
             ok = ok and under and outside
             det += f"; order store(true,Release) < signal < take < join: {ok}; take under the handle-list lock: {under}; join outside it: {outside}"
         ctx.ob("R4.shutdown-order", "join_all_workers", ok, ja.loc(), det)
+    # the pool's Drop starts the shutdown on EVERY path: a pool that "has no workers yet" still has schedulers that may start some
+    # later (the flag must be set), and workers whose handles are not registered yet
+    pdrops = [b for b in prog.bodies if b.name == "drop" and (b.impl_trait or "").endswith("ops::Drop") and (b.impl_adt or "").endswith("pool::Pool")]
+    if not pdrops:
+        ctx.missing("R4.shutdown-order", "Drop for vicinal::pool::Pool")
+    else:
+        pd = pdrops[0]
+        ctx.fn(pd)
+        jc = [bb for bb, _t in calls_to(pd, "pool::PoolInner::join_all_workers")]
+        st2 = [e["bb"] for e in atomic_events(pd) if e["op"] == "store" and e["field"] and e["field"].endswith("PoolInner::shutdown")]
+        pc = path_count(pd, jc or st2)
+        ctx.ob("R4.shutdown-order", "Pool::drop.always-shuts-down", pc == (1, 1), pd.loc(),
+               f"join_all_workers (flag store, signal, join) per normal path of Pool::drop: {pc}" +
+               ("" if pc == (1, 1) else " - on the skipping path the shutdown flag is never set: a scheduler that outlives the pool starts workers nobody signals or joins"))
     if ews is not None:
         gl = GuardLiveness(ews)
         lds = [e for e in atomic_events(ews) if e["op"] == "load" and e["field"] and e["field"].endswith("PoolInner::shutdown")]
